@@ -263,6 +263,25 @@ def _contains_ite(t):
     return False
 
 
+def _vox_fns(atoms):
+    """names of the base-array functions (Vox -> value) occurring in the atoms"""
+    names, seen = set(), set()
+
+    def walk(t):
+        if t.get_id() in seen:
+            return
+        seen.add(t.get_id())
+        if z3.is_app(t):
+            d = t.decl()
+            if d.arity() == 1 and d.kind() == z3.Z3_OP_UNINTERPRETED and d.domain(0) == Vox:
+                names.add(d.name())
+            for c in t.children():
+                walk(c)
+    for a in atoms:
+        walk(a)
+    return names
+
+
 def used_cards(exprs):
     names = set()
 
@@ -295,10 +314,35 @@ def venn_axioms(names, max_atoms=7):
     for n in names:
         k, t, sp = CARDS[n]
         by_space.setdefault(id(sp), (sp, []))[1].append((n, k, t))
+    clusters = []
     for sp, items in by_space.values():
-        atoms = []
+        # cards that share no atom are independent: one Venn diagram per connected cluster (sound; complete
+        # up to theory links between atoms of different clusters)
+        entries = []
         for n, k, t in items:
-            _atoms(t, atoms)
+            a = []
+            _atoms(t, a)
+            entries.append([(n, k, t)], ) if False else entries.append(([(n, k, t)], a))
+        merged = True
+        while merged:
+            merged = False
+            for i in range(len(entries)):
+                for j in range(i + 1, len(entries)):
+                    if _vox_fns(entries[i][1]) & _vox_fns(entries[j][1]):
+                        its = entries[i][0] + entries[j][0]
+                        ats = list(entries[i][1])
+                        for y in entries[j][1]:
+                            if not any(y.eq(x) for x in ats):
+                                ats.append(y)
+                        entries[i] = (its, ats)
+                        del entries[j]
+                        merged = True
+                        break
+                if merged:
+                    break
+        for its, ats in entries:
+            clusters.append((sp, its, ats))
+    for sp, items, atoms in clusters:
         if len(atoms) > max_atoms:
             raise Unsupported(f"{len(atoms)} atoms in one Venn diagram")
         regions = []
@@ -350,6 +394,22 @@ def _is_mask_term(t):
         if k in (z3.Z3_OP_ADD, z3.Z3_OP_MUL, z3.Z3_OP_SUB, z3.Z3_OP_UMINUS, z3.Z3_OP_MOD, z3.Z3_OP_IDIV):
             return all(_is_mask_term(c) for c in t.children())
     return False
+
+
+def _is_region_constant_term(t):
+    """semantic check: the integer term takes one value on every Venn region of its own atoms"""
+    atoms = []
+    _atoms(t, atoms)
+    if not atoms or len(atoms) > 4:
+        return False
+    for bits in itertools.product([True, False], repeat=len(atoms)):
+        v = z3.simplify(z3.substitute(t, *[(a, z3.BoolVal(b)) for a, b in zip(atoms, bits)]))
+        if z3.is_int_value(v):
+            continue
+        v = _region_constant(t, atoms, bits)
+        if v is not None and not z3.is_int_value(v):
+            return False
+    return True
 
 
 def _region_constant(t, atoms, bits):
@@ -537,7 +597,7 @@ class VArr:
             return SymInt(card(self.term, self.space), True, "int64")
         if is_int_dtype(self.dtype_name):
             acc = "uint64" if self.dtype_name in UINT_BITS else "int64"
-            if _is_mask_term(self.term):
+            if _is_mask_term(self.term) or _is_region_constant_term(self.term):
                 return SymInt(vsum(self.term, self.space), True, acc)
             if self.dtype_name in UINT_BITS:
                 # sum of an unsigned label array: only "non-negative, zero iff all elements are zero" is modelled
